@@ -47,8 +47,9 @@ for _c, _can in ((0, 4),):
 
 # two-step histories (observer, update, observer on the same tree object): state an operation leaves behind for the next one
 SEQ_UNITS = [T("%s_sequence" % tr, "h_sequence", tr, canaries=3, functions=["p_tree_lookup", "p_tree_insert", "p_tree_remove"] if tr == "bst" else [],
-               defines_quick=["H=2"], defines_thorough=["H=3"],
-               bound={"quick": "any well-formed %s tree of height <= 2 (<= 3 nodes), lookup / insert-or-remove / lookup with any two keys" % tr, "thorough": "height <= 3 (<= 7 nodes), same three-call history"})
+               defines_quick=["H=2"], defines_thorough=["H=2" if tr == "avl" else "H=3"],
+               bound={"quick": "any well-formed %s tree of height <= 2 (<= 3 nodes), lookup / insert-or-remove / lookup with any two keys" % tr,
+                      "thorough": ("height <= 2 as in the quick tier (height 3 did not finish in 20 minutes)" if tr == "avl" else "height <= 3 (<= 7 nodes), same three-call history")})
              for tr in ("bst", "rb", "avl")]
 for _u in STEP_UNITS:   # the real loop runs at most twice here (asserted); the other loops are the fixed-size ones of the window evaluator
     _u["cbmc_flags"] = ["--object-bits", "10", "--unwind", "9", "--unwindset", ("pp_tree_avl_balance_insert.0:3" if "insert" in _u["id"] else "pp_tree_avl_balance_remove.0:3"), "--unwinding-assertions"]
